@@ -31,7 +31,7 @@ def kind_scope(*mods):
 PROPS = {
     "C10": {
         "rules": [r_panic.run, r_panic.run_errprop, r_panic.run_narrow_arith,
-                  kind_scope("dictionary::connector", "dictionary::mapper")],
+                  kind_scope("dictionary::connector", "dictionary::mapper"), r_cand.unkcover],
         "explanation": "PANIC: every potential panic or silent-wrap site (assert terminators for "
                        "bounds/overflow/division/shift, calls to unwrap/expect/panic!/assert!/"
                        "indexing/copy_from_slice/chunks/..., narrowing `as` casts) in the "
@@ -194,7 +194,7 @@ PROPS = {
     },
     "C01": {
         "rules": [r_token.access, r_token.dispatch, r_cand.cand, r_cand.unkfall, r_viterbi.traceback,
-                  r_reset.run_tokens, r_panic.run_narrow_dict],
+                  r_reset.run_tokens, r_panic.run_narrow_dict, r_cand.unkcover],
         "explanation": "ACCESS: every Token accessor is a projection of the one stored (end, node) "
                        "pair and the sentence's offset table (ranges, surface, ids, costs, "
                        "feature); DISPATCH: each lexicon type is looked up in its own component "
@@ -370,7 +370,11 @@ _ADDED = {
             "used width before each tokenization, so the recurrence never sees a node of an "
             "earlier sentence (a partial clear such as iter_mut().take(n) counts only when n is "
             "the length the buffer is grown to).", "MIR typestate dataflow"),
-    "C10": ("KIND over the connectors and the mapper (loop bounds and tables of the two sides "
+    "C01": ("UNKCOVER: the builder must reject a char.def category that has no unk.def entry "
+            "(otherwise a character of that category that no lexicon entry covers cannot start "
+            "any candidate and tokenization panics).", "absence-of-guard rule"),
+    "C10": ("UNKCOVER as for C01 (`every reachable character able to start some candidate`). "
+            "KIND over the connectors and the mapper (loop bounds and tables of the two sides "
             "are not crossed in the remapping loops). NARROW-ARITH: no overflow-checked arithmetic in an 8/16-bit type below "
             "Worker::tokenize / Token (ids up to u16::MAX are accepted by the builder). "
             "VERIFYMAP: every Lexicon/UnkHandler::map_connection_ids call acts on a component of "
